@@ -157,3 +157,157 @@ Ltac pyrun_using tac :=
 Ltac pylra_fast := first [ assumption | Rlit_norm_all; lra ].
 Ltac pyrun := pyrun_using pylra.
 Ltac pyrun_fast := pyrun_using pylra_fast.
+
+(* ------------------------------------------------------------------------------------
+   pyrunv: CALL-BY-VALUE evaluator (same contract as pyrun: goal [model_call = rhs], the
+   left side is rewritten to a canonical value; only ordinary proofs are built).
+
+   Why: pyrun is call-by-value at [bind] only.  Below a bind the weak-head strategy is
+   call-by-name, and the generated operator wrappers (match a with ... | _ => num_op a b)
+   copy their unevaluated arguments into every branch, so a nested Python expression
+   a + t*(b + t*(c + ...)), or a method call on the result of another call, is
+   re-evaluated exponentially often (g_JDE2000: 250 s with pyrun, 7 s with pyrunv).
+
+   What it does, at every step on [l = _]:
+   1. if l is an application (not a bind) with non-canonical arguments of type [val], or
+      literal lists [x; y; ...] of such (mk_tuple [..]), these are evaluated first, left to
+      right (Python's order), each by a recursive pyrunv; the result is installed with
+      a congruence proof term (eq_trans/f_equal), not with [rewrite], so no unification
+      runs over the (huge) real-number terms.  If an argument cannot be evaluated
+      (stuck, undecidable), it is left alone and step 2 proceeds lazily;
+   2. otherwise one pyrun step (whnf, bind, tuple elements, comparison decided by [tac]);
+   3. at a call of a constant blocked in Whnf.is_blocked (a characterised callee), in
+      this order: a hypothesis [H : s = _] is used; else the hook
+      [pyrunv_hook s tac] is asked to rewrite the call [s] with a lemma (rebind it with
+      [Ltac pyrunv_hook s tac ::= lazymatch s with ... => rewrite (lemma x) by tac end]);
+      else the first non-canonical argument of [s] is evaluated and the call is
+      reconsidered; else "pyrunv: stuck on s" is printed and evaluation stops there.
+      A hook that fails with [fail 1] does not abort the other alternatives.
+   Block constants additively:
+     Ltac2 Set Whnf.is_blocked as old := fun c =>
+       Ltac2.Bool.or (old c) (Ltac2.List.exist (Ltac2.Constr.equal c) ['@Angle___init__]).
+   ------------------------------------------------------------------------------------ *)
+
+(* client hook: rewrite the stuck blocked call [s] in the goal, or fail *)
+Ltac pyrunv_hook s tac := fail.
+
+Ltac pv_noncanon_in_list l k :=
+  lazymatch l with
+  | cons ?x ?r => tryif is_canon x then pv_noncanon_in_list r k else k x
+  end.
+
+(* first non-canonical argument of type val (or element of a literal list of vals) of the
+   application [s], leftmost first; fails if there is none *)
+Ltac pv_first_noncanon_arg s k :=
+  lazymatch s with
+  | ?f ?a =>
+      first [ pv_first_noncanon_arg f k
+            | let t := type of a in
+              lazymatch t with
+              | PyVal.val _ => tryif is_canon a then fail else k a
+              | list (PyVal.val _) => pv_noncanon_in_list a k
+              end ]
+  end.
+
+Ltac pv_has_noncanon_arg s := pv_first_noncanon_arg s ltac:(fun _ => idtac).
+
+Ltac pyrunv_using tac :=
+  lazymatch goal with
+  | |- ?l = _ =>
+    tryif is_canon l then expose_R else
+    tryif (lazymatch l with bind _ _ => fail | _ => idtac end; pv_has_noncanon_arg l)
+    then first [ pv_cbv_fun l tac ltac:(fun p => refine (eq_trans p _)); pyrunv_using tac
+               | pyrunv_step tac ]
+    else pyrunv_step tac
+  end
+(* calls [k] with a proof of [g = g'], g' being g with its val arguments evaluated; fails if
+   nothing could be evaluated *)
+with pv_cbv_fun g tac k :=
+  lazymatch g with
+  | ?g1 ?a =>
+      let t := type of a in
+      lazymatch t with
+      | PyVal.val _ =>
+          tryif is_canon a then pv_cbv_fun g1 tac ltac:(fun p1 => k constr:(f_equal (fun f => f a) p1))
+          else
+            (let H := fresh "Hev" in
+             eassert (H : a = _) by (pyrunv_using tac; py_canon_refl);
+             first [ pv_cbv_fun g1 tac ltac:(fun p1 => k constr:(f_equal2 (fun f x => f x) p1 H))
+                   | k constr:(f_equal g1 H) ];
+             clear H)
+      | list (PyVal.val _) =>
+          first [ pv_cbv_list a tac ltac:(fun pa =>
+                    first [ pv_cbv_fun g1 tac ltac:(fun p1 => k constr:(f_equal2 (fun f x => f x) p1 pa))
+                          | k constr:(f_equal g1 pa) ])
+                | pv_cbv_fun g1 tac ltac:(fun p1 => k constr:(f_equal (fun f => f a) p1)) ]
+      | _ => pv_cbv_fun g1 tac ltac:(fun p1 => k constr:(f_equal (fun f => f a) p1))
+      end
+  end
+(* calls [k] with a proof of [l = l'] for a literal list l with at least one element evaluated *)
+with pv_cbv_list l tac k :=
+  lazymatch l with
+  | @cons ?A ?x ?r =>
+      tryif is_canon x then pv_cbv_list r tac ltac:(fun pr => k constr:(f_equal (@cons A x) pr))
+      else
+        (let H := fresh "Hev" in
+         eassert (H : x = _) by (pyrunv_using tac; py_canon_refl);
+         first [ pv_cbv_list r tac ltac:(fun pr => k constr:(f_equal2 (@cons A) H pr))
+               | k constr:(f_equal (fun z => @cons A z r) H) ];
+         clear H)
+  end
+with pyrunv_step tac :=
+  whnf_lhs;
+  lazymatch goal with
+  | |- ?l = _ =>
+    tryif is_canon l then expose_R else
+    first [
+      lazymatch l with
+      | bind ?e ?k =>
+          tryif is_canon e then
+            lazymatch e with
+            | VErr _ => refine (eq_trans (bind_err _ k) _)
+            | _ => refine (eq_trans (bind_ok e k eq_refl) _); cbv beta
+            end
+          else
+            let H := fresh "Hev" in
+            eassert (H : e = _) by (pyrunv_using tac; py_canon_refl);
+            refine (eq_trans (f_equal (fun z => bind z k) H) _); clear H
+      | VTuple ?xs => first_noncanon xs ltac:(fun x =>
+            let H := fresh "Hev" in
+            eassert (H : x = _) by (pyrunv_using tac; py_canon_refl); rewrite H; clear H)
+      | VList ?xs => first_noncanon xs ltac:(fun x =>
+            let H := fresh "Hev" in
+            eassert (H : x = _) by (pyrunv_using tac; py_canon_refl); rewrite H; clear H)
+      | VObj _ ?xs => first_noncanon xs ltac:(fun x =>
+            let H := fresh "Hev" in
+            eassert (H : x = _) by (pyrunv_using tac; py_canon_refl); rewrite H; clear H)
+      | _ =>
+          pose_stuck;
+          lazymatch goal with
+          | py_stuck := ?s |- _ =>
+              clear py_stuck; py_trace s;
+              lazymatch s with
+              | bind ?e ?k =>
+                  let H := fresh "Hev" in
+                  eassert (H : bind e k = _) by (pyrunv_using tac; py_canon_refl);
+                  rewrite H; clear H
+              | Rltb _ _ => py_decide_at s tac
+              | Rleb _ _ => py_decide_at s tac
+              | Reqb _ _ => py_decide_at s tac
+              | _ =>
+                  first [ match goal with H : s = _ |- _ => rewrite H end
+                        | first [ first [ pyrunv_hook s tac ] ]
+                        | pv_first_noncanon_arg s ltac:(fun a =>
+                            let H := fresh "Hev" in
+                            eassert (H : a = _) by (pyrunv_using tac; py_canon_refl);
+                            rewrite H; clear H)
+                        | idtac "pyrunv: stuck on" s; fail 1 ]
+              end
+          end
+      end;
+      pyrunv_using tac
+    | idtac ]
+  end.
+
+Ltac pyrunv := pyrunv_using pylra.
+Ltac pyrunv_fast := pyrunv_using pylra_fast.
